@@ -618,6 +618,10 @@ impl Element {
     ///  - [`AutosarDataError::ForbiddenMoveToSubElement`]: The destination is a sub element of the source. Moving here is not possible
     ///  - [`AutosarDataError::NoFilesInModel`]: The operation cannot be completed because the model does not contain any files
     pub fn move_element_here(&self, move_element: &Element) -> Result<Element, AutosarDataError> {
+        if self == move_element {
+            // trying to move self into self never makes sense, and would deadlock
+            return Err(AutosarDataError::ForbiddenMoveToSubElement);
+        }
         let model_src = move_element.model()?;
         let model = self.model()?;
         let version_src = move_element.min_version()?;
@@ -671,6 +675,10 @@ impl Element {
     ///  - [`AutosarDataError::InvalidPosition`]: This sub element cannot be created at the requested position.
     ///  - [`AutosarDataError::NoFilesInModel`]: The operation cannot be completed because the model does not contain any files
     pub fn move_element_here_at(&self, move_element: &Element, position: usize) -> Result<Element, AutosarDataError> {
+        if self == move_element {
+            // trying to move self into self never makes sense, and would deadlock
+            return Err(AutosarDataError::ForbiddenMoveToSubElement);
+        }
         let model_src = move_element.model()?;
         let model = self.model()?;
         let version_src = move_element.min_version()?;
